@@ -315,6 +315,9 @@ func grpcRealExec(c SeqCase) RunOut {
 	h.Write([]byte("grpcreal"))
 	out.CaseHash = h.Sum64()
 	out.Sample, _ = json.Marshal(map[string]any{"client": "grpcreal", "keys": c.Keys, "ops": opsSummary(c.Ops)})
+	// real time here: the world's simulated-time knobs must not become real background churn
+	c.World.GCPeriodNs = int64(time.Hour)
+	c.World.SendDurNs = int64(time.Millisecond)
 	w, err := NewWorld(c.World, c.Sched.Seed)
 	if err != nil {
 		out.Infra = err.Error()
